@@ -1235,8 +1235,12 @@ func safeNext(it Iterator) (v interface{}, err error) {
 // error type: a helper declared as func() (T, *MyErr) that returns nil has
 // not failed.
 func isNilPointer(e error) bool {
-	rv := reflect.ValueOf(e)
-	return rv.Kind() == reflect.Ptr && rv.IsNil()
+	switch rv := reflect.ValueOf(e); rv.Kind() {
+	case reflect.Ptr, reflect.Map, reflect.Slice, reflect.Func, reflect.Chan:
+		// error types of these kinds have a nil of their own as well
+		return rv.IsNil()
+	}
+	return false
 }
 
 // evalChainCallee evaluates the rest of a path that goes on after a call:
